@@ -376,7 +376,7 @@ func parMap[I, O any](rc *RunCtx, job string, items []I, fresh bool, handle func
 				}
 			}()
 			for i := range next {
-				if rc.failedNow() {
+				if rc.failedNow() || rc.Expired() { // time budget: no new work items are started
 					break
 				}
 				if p == nil {
@@ -451,6 +451,9 @@ func parMap[I, O any](rc *RunCtx, job string, items []I, fresh bool, handle func
 			handle(want, items[want], o)
 			want++
 		}
+	}
+	if want < len(items) && rc.Expired() && !rc.failedNow() {
+		rc.Capped(fmt.Sprintf("time budget reached: %d of %d work items of %s were explored (in order), the rest was not started", want, len(items), job))
 	}
 }
 
@@ -545,9 +548,9 @@ func Main(root string) {
 	if s := os.Getenv("VERIF_WORKERS"); s != "" {
 		workers, _ = strconv.Atoi(s)
 	}
-	budget := 150 * time.Second
+	budget := 15 * time.Minute // the quick tiers take 1-60 s on an idle 16-core machine; the cap only matters on an overloaded one
 	if tier == "thorough" {
-		budget = 25 * time.Minute
+		budget = 40 * time.Minute
 	}
 	if s := os.Getenv("VERIF_BUDGET_S"); s != "" {
 		if n, e := strconv.Atoi(s); e == nil {
